@@ -169,12 +169,18 @@ Cats(c, r) ==
                ELSE (IF r.h_status = c.status THEN {} ELSE {"hit_status"})
                     \cup (IF HdrBadResp(r.h_hdr, RespOf(c), RespVocab) = {} /\ ClOK(r.o_cl, r.h_cl) THEN {} ELSE {"hit_headers"})
                     \cup (IF r.h_body = WantBody(c) THEN {} ELSE {"hit_body"}))
+         \* the same request once more after the entry's lifetime has elapsed (revalidated with a 304 that repeats the fields)
+         \cup (IF r.r_status = 0 THEN {}
+               ELSE (IF r.r_status = c.status THEN {} ELSE {"reval_status"})
+                    \cup (IF HdrBadResp(r.r_hdr, RespOf(c), RespVocab) = {} /\ ClOK(r.o_cl, r.r_cl) THEN {} ELSE {"reval_headers"})
+                    \cup (IF r.r_body = WantBody(c) THEN {} ELSE {"reval_body"}))
 N == Len(Results)
 CaseOf(i) == CasesIn[Results[i].id]
 Bad == {i \in 1..N : Cats(CaseOf(i), Results[i]) # {}}
 AllCats == UNION {Cats(CaseOf(i), Results[i]) : i \in Bad}
 RespNamesBad(i) == HdrBadResp(Results[i].c_hdr, RespOf(CaseOf(i)), RespVocab) \cup
-                   (IF Results[i].h_status > 0 THEN HdrBadResp(Results[i].h_hdr, RespOf(CaseOf(i)), RespVocab) ELSE {})
+                   (IF Results[i].h_status > 0 THEN HdrBadResp(Results[i].h_hdr, RespOf(CaseOf(i)), RespVocab) ELSE {}) \cup
+                   (IF Results[i].r_status > 0 THEN HdrBadResp(Results[i].r_hdr, RespOf(CaseOf(i)), RespVocab) ELSE {})
 Detail(i) == IF F(Results[i], "err", "") # ""
              THEN [id |-> Results[i].id, cats |-> SetToSeq(Cats(CaseOf(i), Results[i])), req |-> <<>>, resp |-> <<>>]
              ELSE [id |-> Results[i].id, cats |-> SetToSeq(Cats(CaseOf(i), Results[i])),
